@@ -208,7 +208,9 @@ func (store *KeyStore) EnumerateExportedKeyPaths() ([]string, error) {
 // map keys, we have to get a bit creative.
 
 func (key *ExportedKey) fusedID() string {
-	return key.KeyContext.Purpose.String() + string(keystore.GetKeyContextFromContext(key.KeyContext))
+	// Purposes never contain a zero byte: the separator keeps different (purpose, ID) pairs apart
+	// ("storage" + "_sym_keyX" must not be the same as "storage_sym_key" + "X").
+	return key.KeyContext.Purpose.String() + "\x00" + string(keystore.GetKeyContextFromContext(key.KeyContext))
 }
 
 func (key *ExportedKey) addPathFrom(other *ExportedKey) {
